@@ -33,6 +33,9 @@ CLAIMED = {
  'C18': ('exhaustive enumeration of (estimator, parameter, value kind) cells + Hypothesis set_params/clone/pickle/fit sequences against a dict model',
          'Exploration with an exhaustively enumerated cell space: identity of stored parameters, defaults of the others, clone/pickle equality, deprecated aliases, NotFittedError for every method; generated histories compared with Est(**final_params).fit.',
          'Value kinds are six representatives per parameter.', '4/C18'),
+ 'C20': ('Hypothesis-drawn spectra with the asserted clause chosen from the computed spectrum; priors/inits observed through zero-update fits and compared with an independent construction',
+         'Exploration: thousands of symmetric matrices per run (every rank, near-PSD inside/outside tolerance, indefinite, 14 decades) through components_from_metric with L^T L = M / NonPSDError / ValueError oracles; prior and init options observed on fitted models that perform no update (LSML tol=1e10, ITML with inactive bounds, MMC diagonal max_iter=0, LMNN max_iter=0, NCA/MLKR with zero L-BFGS iterations).',
+         'A boundary band around the tolerance is not asserted; pca/lda compared up to row sign.', '4/C20'),
 }
 PENDING = 'check not built yet in this revision of /verif (planned, see DESIGN.md section 4)'
 
